@@ -27,9 +27,32 @@ package test
 //   - no call blocks forever: scripts are planned against a bounded-buffer model (see
 //     c14Plan) so that they cannot deadlock by themselves on a correct transport.
 //
-// engine c14     : every goroutine runs inside a testing/synctest bubble under the seeded
-//                  scheduler (sim.Sched). Transport "mock" always; "ws" and "grpc" over
-//                  in-memory listeners when the case says so.
+// Engine "c14" (the registered one) draws the transport per case; "c14-mock", "c14-ws" and
+// "c14-grpc" are the same engine pinned to one transport (focused runs). ALL THREE
+// transports run inside a testing/synctest bubble under the seeded scheduler (sim.Sched):
+//
+//   - mock: freighter/go/mock as is (NewStreamPair or a mock.Network), channel capacities
+//     0..11 per direction drawn per case;
+//   - ws: the real fiber/fasthttp server and the real websocket client of freighter/go/http
+//     over fasthttputil's in-memory listener, json or msgpack codec, with or without a
+//     stream write deadline;
+//   - grpc: the real grpc-go server and client of freighter/go/grpc (the repository's test
+//     service) over grpc/test/bufconn.
+//
+// The two scripts are goroutines that park before every call and again after it returned,
+// so the order of calls and the order in which concurrent calls are seen to complete come
+// from the seed; inside the instrumented repository packages every lock, atomic, channel
+// operation and select is a yield point too (that needs ./mock, ./http and ./grpc among the
+// instrumented roots of the unit), and with c14Case.NetYield every read and write on the
+// in-memory connection is one, so when bytes leave one side and reach the other is seeded
+// as well. Pauses (1 ms .. 2.5 s) run on virtual time and cross the websocket server's
+// 500 ms close handshake. grpc-go, fasthttp and the websocket library themselves are not
+// instrumented: their goroutines run freely between two decisions of the scheduler until
+// the bubble is quiescent.
+//
+// No transport fault, no context cancellation and no call on a ServerStream after its
+// handler returned are generated: the statement does not cover them (the last one is
+// called a programming error by stream.go).
 
 import (
 	"context"
@@ -96,9 +119,14 @@ type c14Case struct {
 	// mock: true = client and server are resolved through a mock.Network
 	ViaNet bool `json:"via_net,omitempty"`
 	// ws: json or msgpack
-	Codec  string  `json:"codec,omitempty"`
-	Client []c14Op `json:"client"`
-	Server []c14Op `json:"server"` // the handler returns after its last op
+	Codec string `json:"codec,omitempty"`
+	// ws: RouterConfig.StreamWriteDeadline (0 = the router's default); never shorter than
+	// any wait a script can impose, so it is armed on every write but never expires
+	WriteDeadlineMS int `json:"write_deadline_ms,omitempty"`
+	// ws, grpc: every read and write on the connection is a seeded scheduling point
+	NetYield bool    `json:"net_yield,omitempty"`
+	Client   []c14Op `json:"client"`
+	Server   []c14Op `json:"server"` // the handler returns after its last op
 	// Ret: index into c14Errs (0 = nil)
 	Ret      int    `json:"ret"`
 	Seed     uint32 `json:"seed"`
@@ -208,6 +236,9 @@ func genC14(t *rapid.T) c14Case {
 
 func genC14For(t *rapid.T, transport string) c14Case {
 	c := c14Case{Transport: transport, Seed: rapid.Uint32().Draw(t, "seed"), Strategy: rapid.IntRange(0, 2).Draw(t, "strategy")}
+	if transport != "mock" {
+		c.NetYield = rapid.IntRange(0, 9).Draw(t, "net_yield") < 7
+	}
 	switch transport {
 	case "mock":
 		bufs := []int{0, 1, 1, 2, 3, 10, 10, 11}
@@ -216,6 +247,7 @@ func genC14For(t *rapid.T, transport string) c14Case {
 		c.ViaNet = rapid.Bool().Draw(t, "via_net")
 	case "ws":
 		c.Codec = rapid.SampledFrom([]string{"json", "msgpack"}).Draw(t, "codec")
+		c.WriteDeadlineMS = rapid.SampledFrom([]int{0, 0, 60_000}).Draw(t, "write_deadline")
 	}
 	genC14Scripts(t, &c)
 	c.Client = c14Plan(c)
@@ -741,7 +773,7 @@ func runC14In(c c14Case, st *drv.Stats, bubble bool) (fail *drv.Failure) {
 	}
 	if fail == nil {
 		var shape strings.Builder
-		fmt.Fprintf(&shape, "%s|%d|%d|%v|%s|%d|", c.Transport, c.ReqBuf, c.ResBuf, c.ViaNet, c.Codec, c.Ret)
+		fmt.Fprintf(&shape, "%s|%d|%d|%v|%s|%d|%v|%d|", c.Transport, c.ReqBuf, c.ResBuf, c.ViaNet, c.Codec, c.WriteDeadlineMS, c.NetYield, c.Ret)
 		for _, op := range c.Client {
 			shape.WriteString(op.String() + ",")
 		}
@@ -850,6 +882,7 @@ func c14Check(c c14Case, h *c14Hist, st *drv.Stats) *drv.Failure {
 	defer h.mu.Unlock()
 	tp := c.Transport
 	ret := c14Errs[c.Ret]
+	probe := func(name string) { st.Probe(tp + "." + name) }
 	failf := func(class, sig, format string, args ...any) *drv.Failure {
 		d := h.dumpLocked()
 		return drv.Failf(class, tp+":"+sig, "%s: "+format+"\nhandler returns %s; history:\n%s", append(append([]any{tp}, args...), ret.name, d)...)
@@ -893,7 +926,7 @@ func c14Check(c c14Case, h *c14Hist, st *drv.Stats) *drv.Failure {
 				if h.retSeq == 0 || e.end < h.retSeq {
 					return failf("closesend-failed", c14ErrSig(e.err), "CloseSend failed while the handler was running: %v", e.err)
 				}
-				st.Probe("closesend_error_after_handler_returned")
+				probe("closesend_error_after_handler_returned")
 			}
 		}
 	}
@@ -942,12 +975,12 @@ func c14Check(c c14Case, h *c14Hist, st *drv.Stats) *drv.Failure {
 			if !ret.match(e.err) {
 				return failf("terminal-not-stable", "changed:"+ret.name+":"+c14ErrSig(e.err), "a repeated client receive returned %q, the first terminal result was %q", firstLineC14(e.err.Error()), firstLineC14(terminal.err.Error()))
 			}
-			st.Probe("client_receive_after_end")
+			probe("client_receive_after_end")
 			continue
 		}
 		if e.err == nil {
 			if firstCloseEnd != 0 && e.start > firstCloseEnd {
-				st.Probe("client_received_data_after_closesend")
+				probe("client_received_data_after_closesend")
 			}
 			continue
 		}
@@ -968,11 +1001,11 @@ func c14Check(c c14Case, h *c14Hist, st *drv.Stats) *drv.Failure {
 		}
 		switch {
 		case c.Ret == 0:
-			st.Probe("end_nil")
+			probe("end_nil")
 		case ret.registered:
-			st.Probe("end_registered_error")
+			probe("end_registered_error")
 		default:
-			st.Probe("end_unregistered_error")
+			probe("end_unregistered_error")
 		}
 	}
 	// 3. handler receive: end-of-stream only after CloseSend, after every request
@@ -985,7 +1018,7 @@ func c14Check(c c14Case, h *c14Hist, st *drv.Stats) *drv.Failure {
 			if !errors.Is(e.err, freighter.EOF) {
 				return failf("server-eof-not-stable", "changed:"+c14ErrSig(e.err), "a repeated handler receive returned %q after end-of-stream", firstLineC14(e.err.Error()))
 			}
-			st.Probe("handler_receive_after_eof")
+			probe("handler_receive_after_eof")
 			continue
 		}
 		if e.err == nil {
@@ -1002,9 +1035,9 @@ func c14Check(c c14Case, h *c14Hist, st *drv.Stats) *drv.Failure {
 			return failf("requests-lost", "lost-before-eof", "the handler was told the client is done after %d requests, the client had sent %d successfully before CloseSend", len(sRecvOK), len(cSendOK))
 		}
 		if len(sRecvOK) > 0 {
-			st.Probe("handler_eof_after_requests")
+			probe("handler_eof_after_requests")
 		} else {
-			st.Probe("handler_eof_without_requests")
+			probe("handler_eof_without_requests")
 		}
 	}
 	// 4. client send results
@@ -1026,7 +1059,7 @@ func c14Check(c c14Case, h *c14Hist, st *drv.Stats) *drv.Failure {
 				return failf("send-error-not-stable", "nil-after-error", "client send #%d returned nil after an earlier send had failed", e.id)
 			}
 			if returned {
-				st.Probe("client_send_ok_after_handler_returned")
+				probe("client_send_ok_after_handler_returned")
 			}
 		case errors.Is(e.err, freighter.EOF):
 			failed = true
@@ -1034,16 +1067,16 @@ func c14Check(c c14Case, h *c14Hist, st *drv.Stats) *drv.Failure {
 				return failf("send-eof-without-end", "eof", "client send #%d reported end-of-stream although the handler had not returned", e.id)
 			}
 			if sawEnd {
-				st.Probe("client_send_after_end")
+				probe("client_send_after_end")
 			} else {
-				st.Probe("client_send_raced_with_return")
+				probe("client_send_raced_with_return")
 			}
 		case errors.Is(e.err, freighter.ErrStreamClosed):
 			failed = true
 			if !closeBegun {
 				return failf("send-closed-without-closesend", "stream-closed", "client send #%d reported a closed stream although CloseSend was never called", e.id)
 			}
-			st.Probe("client_send_after_closesend")
+			probe("client_send_after_closesend")
 		default:
 			if returned {
 				// documented: "If the server closed the stream -> Returns a freighter.EOF error"
@@ -1061,7 +1094,7 @@ func c14Check(c c14Case, h *c14Hist, st *drv.Stats) *drv.Failure {
 			}
 		}
 		if len(sSendOK) > got {
-			st.Probe("responses_in_flight_at_return")
+			probe("responses_in_flight_at_return")
 		}
 		rgot := len(sRecvOK)
 		sent := 0
@@ -1071,20 +1104,20 @@ func c14Check(c c14Case, h *c14Hist, st *drv.Stats) *drv.Failure {
 			}
 		}
 		if sent > rgot {
-			st.Probe("requests_unread_at_return")
+			probe("requests_unread_at_return")
 		}
 	}
 	for _, e := range h.events {
 		if e.op.K == "send" && e.err == nil && len(e.msg) >= 65536 {
-			st.Probe("payload_64k_or_more")
+			probe("payload_64k_or_more")
 			break
 		}
 	}
 	if len(cCloses) > 1 {
-		st.Probe("closesend_twice")
+		probe("closesend_twice")
 	}
 	if terminal == nil {
-		st.Probe("client_stopped_before_end")
+		probe("client_stopped_before_end")
 	}
 	return nil
 }
